@@ -512,10 +512,14 @@ where
         let addr = self.list_ptr.addr();
         let is_advanced = addr >= *cursor;
         *cursor = addr;
-        let inner_check = if let Some(inner) = &self.inner_exclusive {
-            inner.check_pointers(range, &mut { range.start })
-        } else {
-            true
+        // `inner_exclusive` is only meaningful while a mutable borrow of an element may be live (see
+        // `check_inner_initialized`). After `insert`/`remove`/`clear` it is a stale leftover that later resizes keep
+        // shifting, possibly past the end of the allocation, so it must not take part in the check.
+        let inner_check = match &self.inner_exclusive {
+            Some(inner) if self.possible_mut_borrow.get() => {
+                inner.check_pointers(range, &mut { range.start })
+            }
+            _ => true,
         };
         is_advanced && range.contains(&self.list_ptr.addr()) && inner_check
     }
